@@ -81,9 +81,27 @@ def run(R):
         shifted = [(b"extra", "L")] + a2[:10] + a2[11:]
         jobs.append(dict(cut=R.cut, tree=box.Tree({b"f": ("f", gen.render(shifted, "keep"), 0o644), b"p.diff": ("f", text, 0o644)}), argv=opts + [b"-F", b"0", b"-i", b"p.diff"]))
         meta.append((opts + [b"-F", b"0"], 1, "offset", shifted, backup_name(opts, b"f"), False, text))
+    # the same file under two spellings ('f' and './f' with -p0): still one file, one backup of the state before the first section
+    # (kept after the scenarios that go through the T8 tie: the model's tree does not normalise path spellings)
+    n_tied = len(jobs)
+    for opts in ([b"-b"], [b"-b", b"-z", b".bak"], []):
+        for spell in (b"./f", b".//f", b"././f"):
+            for how in ("exact", "offset"):
+                cur = list(a); secs = []
+                for k in range(2):
+                    nxt = cur[:3 + 4 * k] + [(b"alias%d" % k, "L")] + cur[4 + 4 * k:]
+                    nm = b"f" if k == 0 else spell
+                    secs.append(emit.unified_text(gen.make_hunks(cur, nxt, 2), nm, nm))
+                    cur = nxt
+                before = ([(b"ins", "L")] if how == "offset" else []) + list(a)
+                text = b"".join(secs)
+                jobs.append(dict(cut=R.cut, tree=box.Tree({b"f": ("f", gen.render(before, "keep"), 0o644), b"p.diff": ("f", text, 0o644)}), argv=opts + [b"-p0", b"-i", b"p.diff"]))
+                meta.append((opts + [b"-p0", b"@alias"], 2, how, before, backup_name(opts, b"f"), False, text))
     res = drv.run_many(jobs)
     dist = {}
     for (opts, nsec, how, before, bn, pre_existing, text), r in zip(meta, res):
+        alias = b"@alias" in opts
+        opts = [o for o in opts if o != b"@alias"]
         R.evaluations += 1; R.nontrivial.add(hash((tuple(opts), nsec, how, pre_existing, text)))
         data = {"argv": [o.decode() for o in opts] + ["-i", "p.diff"], "how": how, "sections": nsec, "patch_hex": text.hex(), "exit": r.exit,
                 "file_before": gen.render(before, "keep").hex() if how != "absent" else None, "pre_existing_backup": pre_existing,
@@ -117,13 +135,16 @@ def run(R):
                         cur_.append(e)
                 first_due = next((i for i, es in enumerate(secs_ev) if b"-b" in opts or any(e[0] == "hunk" and (e[2] == "FAILED" or e[4] != 0 or e[5] != 0) for e in es)), 0)
                 tag = "backup.due-at-later-section" if (nsec > 1 and first_due > 0 and b"-b" not in opts) else None
+                if alias and tag is None:
+                    tag = "backup.alias-spelling"   # known finding D44: the set of files already backed up is keyed by the spelling of the name
                 R.oracle_fail("the backup does not hold the bytes the target had before the run" + (" (several sections: must be the state before the first)" if nsec > 1 else ""), data, tag=tag)
     R.dist["backup scenarios"] = dist
     import ties
-    ties.t8(R, "T8-driver", [dict(tree=j["tree"], argv=j["argv"]) for j in jobs[:200 if quick else 3000]])
+    ties.t8(R, "T8-driver", [dict(tree=j["tree"], argv=j["argv"]) for j in jobs[:min(n_tied, 200 if quick else 3000)]])
 
 
 RULE = ("a 12-line file patched by 1-3 sections for the same file (exact, offset, fuzzy, failing, already applied, creating, deleting) x all combinations of "
         "-b, -B, -z, --posix, --backup-if-mismatch, --no-backup-if-mismatch, with and without a pre-existing backup file; oracle: backup exists iff due "
-        "(decision table of the statement), holds the bytes before the first section (empty if the target did not exist), named prefix+path+suffix.")
+        "(decision table of the statement), holds the bytes before the first section (empty if the target did not exist), named prefix+path+suffix; "
+        "two sections naming the file 'f' and './f' (-p0) are sections for one file.")
 ASSUME = ["backup prefixes do not contain directory separators"]
